@@ -8,6 +8,7 @@ package conf
 // keys rewritten to snake_case / flipped initial case loads into the same struct.
 
 import (
+	"encoding/json"
 	"fmt"
 	"os"
 	"reflect"
@@ -612,4 +613,219 @@ func TestVerifC05ConfKeys(t *testing.T) {
 	}
 	m.Count("key-table.keys", int64(len(keys)))
 	m.Sample(map[string]any{"keys": len(keys), "probes": idx, "examples": []string{"Zone<-zone", "maxZone<-max_zone", "zkZosts<-zk_zosts", "HTTPPort<-hTTPPort", "a0Z9z<-a0_z9z"}})
+}
+
+// ---------------------------------------------------------------------------
+// conf.Load / conf.MustLoad from files (by extension) and the UseEnv option
+
+func c05cLoadFile(s *g.Shape, file string, must bool, opts ...Option) (out c05cOut) {
+	out.res = s.New()
+	v := out.res.Interface()
+	defer func() {
+		if r := recover(); r != nil {
+			out.pv = r
+			out.stack = string(debug.Stack())
+		}
+	}()
+	if must {
+		MustLoad(file, v, opts...) // only ever called on files whose Load succeeded: it exits the process on error
+		return out
+	}
+	out.err = Load(file, v, opts...)
+	return out
+}
+
+// TestVerifC05ConfLoad: a document written to a .json / .yaml / .yml file (any letter case of the
+// extension) loads into the same struct as the same bytes given to LoadFromJsonBytes / LoadFromYamlBytes;
+// with UseEnv, ${VAR} / $VAR in the file are replaced by the environment before parsing.
+func TestVerifC05ConfLoad(t *testing.T) {
+	m := vk.New(t, "C05", "conf.Load(file) == LoadFrom{Json,Yaml}Bytes(content) for seeded shapes/documents (valid, key variants, single faults) over extensions .json .yaml .yml in mixed case; MustLoad on loadable files; UseEnv: fixed templates with ${VAR}/$VAR in string, number, bool, list and nested positions x value sets (normal, extremes, out of range, overflow, undefined) == LoadFrom*Bytes of the expanded text, and without UseEnv == LoadFrom*Bytes of the raw text; unknown extension / missing file / directory: error")
+	defer m.Done()
+	dir := os.Getenv("VK_SCRATCH")
+	if dir == "" {
+		dir = t.TempDir()
+	}
+	exts := []struct {
+		ext  string
+		yaml bool
+	}{{".json", false}, {".yaml", true}, {".yml", true}, {".JSON", false}, {".Yaml", true}, {".YML", true}}
+	write := func(name string, content []byte) string {
+		p := dir + "/" + name
+		if err := os.WriteFile(p, content, 0o644); err != nil {
+			m.Inconclusive("cannot write %s: %v", p, err)
+		}
+		return p
+	}
+	n := vk.N(250, 8000)
+	for idx := 1; idx <= n; idx++ {
+		if !m.Only(idx) {
+			continue
+		}
+		r := m.Rand("confload", idx)
+		shape := g.RandShape(r, g.Cfg{TagKey: "json", MaxDepth: 2, Conf: true, NoEnv: true})
+		cr := &c05cRun{m: m, idx: idx, shape: shape}
+		c := g.ValidCase(r, shape, true, false)
+		docs := []struct {
+			what string
+			doc  map[string]any
+		}{{"valid", c.Doc}, {"valid;keys=mix", g.KeyVariant(r, shape.Root, c.Doc, "mix")}}
+		ft := c.InjectFault(r)
+		if ft != nil {
+			docs = append(docs, struct {
+				what string
+				doc  map[string]any
+			}{"fault:" + ft.Kind, g.Clone(c.Doc).(map[string]any)})
+			ft.Undo()
+		}
+		acc, rej := 0, 0
+		for di, dc := range docs {
+			e := exts[(idx+di)%len(exts)]
+			if e.yaml && g.HasNull(dc.doc) {
+				e = exts[0]
+			}
+			var content []byte
+			if e.yaml {
+				content = g.YAML(dc.doc)
+			} else {
+				content = g.JSON(dc.doc)
+			}
+			file := write(fmt.Sprintf("c05-%d-%d%s", idx, di, e.ext), content)
+			d := fmt.Sprintf("case=%d;api=conf.Load;file=*%s;class=%s;shape=%s;content=%s", idx, e.ext, dc.what, shape.String(), c05cTrim(string(content), 2500))
+			c05cCurrent(m, idx, d)
+			ref := c05cLoad(e.yaml, shape, content)
+			out := c05cLoadFile(shape, file, false)
+			m.Count("load.files"+strings.ToLower(e.ext), 1)
+			if cr.same(ref, out, d, "C05:conf-load-file", "file with extension "+e.ext+" vs the same bytes") {
+				break
+			}
+			if out.err == nil {
+				acc++
+				mo := c05cLoadFile(shape, file, true)
+				if cr.same(ref, mo, d, "C05:conf-mustload-file", "MustLoad vs the same bytes") {
+					break
+				}
+			} else {
+				rej++
+			}
+			os.Remove(file)
+		}
+		m.Case(shape.String(), acc > 0)
+	}
+
+	// ---- deterministic part: UseEnv templates, error arms
+	base := n
+	root := g.StructOf(
+		g.F("Name", "name", g.L(g.String), g.Opts{}),
+		g.F("Port", "port", g.L(g.Uint16), g.Opts{Range: &g.Range{L: "1", R: "65535", LI: true, RI: true}}),
+		g.F("Ratio", "ratio", g.L(g.Float64), g.Opts{Optional: true}),
+		g.F("Tags", "tags", g.SliceOf(g.L(g.String)), g.Opts{}),
+		g.F("Db", "db", g.StructOf(g.F("Url", "url", g.L(g.String), g.Opts{}), g.F("Pool", "poolSize", g.L(g.Int8), g.Opts{HasDefault: true, Default: "4"})), g.Opts{}),
+		g.F("Flag", "flag", g.L(g.Bool), g.Opts{Optional: true}),
+		g.F("Wait", "wait", g.L(g.Duration), g.Opts{HasDefault: true, Default: "1s"}),
+	)
+	shape := &g.Shape{Root: root, TagKey: "json"}
+	pfx := fmt.Sprintf("C05L%d_", os.Getpid())
+	jsonT := `{"name":"${` + pfx + `NAME}","port":${` + pfx + `PORT},"ratio":$` + pfx + `RATIO,"tags":["a","${` + pfx + `TAG}","$` + pfx + `TAG-x"],"db":{"url":"pg://${` + pfx + `HOST}:${` + pfx + `PORT}/x","pool_size":${` + pfx + `POOL}},"flag":${` + pfx + `FLAG},"wait":"${` + pfx + `WAIT}"}`
+	yamlT := "name: \"${" + pfx + "NAME}\"\nport: ${" + pfx + "PORT}\nratio: $" + pfx + "RATIO\ntags:\n  - \"a\"\n  - \"${" + pfx + "TAG}\"\n  - \"$" + pfx + "TAG-x\"\ndb:\n  url: \"pg://${" + pfx + "HOST}:${" + pfx + "PORT}/x\"\n  pool_size: ${" + pfx + "POOL}\nflag: ${" + pfx + "FLAG}\nwait: \"${" + pfx + "WAIT}\"\n"
+	sets := []struct {
+		name string
+		env  map[string]string
+	}{
+		{"normal", map[string]string{"NAME": "svc", "PORT": "8080", "RATIO": "0.5", "TAG": "blue", "HOST": "db.local", "POOL": "16", "FLAG": "true", "WAIT": "2m30s"}},
+		{"extremes", map[string]string{"NAME": "Z", "PORT": "65535", "RATIO": "1.7976931348623157e+308", "TAG": "z", "HOST": "::1", "POOL": "-128", "FLAG": "false", "WAIT": "1ns"}},
+		{"low-extremes", map[string]string{"NAME": "a b", "PORT": "1", "RATIO": "-0.25", "TAG": "0", "HOST": "h", "POOL": "127", "FLAG": "false", "WAIT": "0"}},
+		{"port-out-of-range", map[string]string{"NAME": "svc", "PORT": "0", "RATIO": "1", "TAG": "t", "HOST": "h", "POOL": "1", "FLAG": "true", "WAIT": "1s"}},
+		{"port-overflow", map[string]string{"NAME": "svc", "PORT": "70000", "RATIO": "1", "TAG": "t", "HOST": "h", "POOL": "1", "FLAG": "true", "WAIT": "1s"}},
+		{"pool-overflow", map[string]string{"NAME": "svc", "PORT": "80", "RATIO": "1", "TAG": "t", "HOST": "h", "POOL": "300", "FLAG": "true", "WAIT": "1s"}},
+		{"pool-undefined", map[string]string{"NAME": "svc", "PORT": "80", "RATIO": "1", "TAG": "t", "HOST": "h", "FLAG": "true", "WAIT": "1s"}},
+		{"bad-duration", map[string]string{"NAME": "svc", "PORT": "80", "RATIO": "1", "TAG": "t", "HOST": "h", "POOL": "1", "FLAG": "true", "WAIT": "soon"}},
+	}
+	all := []string{"NAME", "PORT", "RATIO", "TAG", "HOST", "POOL", "FLAG", "WAIT"}
+	idx := base
+	for _, st := range sets {
+		for _, k := range all {
+			if v, ok := st.env[k]; ok {
+				os.Setenv(pfx+k, v)
+			} else {
+				os.Unsetenv(pfx + k)
+			}
+		}
+		for _, e := range exts {
+			for _, useEnv := range []bool{true, false} {
+				idx++
+				if !m.Only(idx) {
+					continue
+				}
+				tmpl := jsonT
+				if e.yaml {
+					tmpl = yamlT
+				}
+				file := write(fmt.Sprintf("c05-env-%d%s", idx, e.ext), []byte(tmpl))
+				content := tmpl
+				var opts []Option
+				if useEnv {
+					content = os.Expand(tmpl, func(k string) string { return st.env[strings.TrimPrefix(k, pfx)] })
+					opts = []Option{UseEnv()}
+				}
+				cr := &c05cRun{m: m, idx: idx, shape: shape}
+				d := fmt.Sprintf("case=%d;api=conf.Load;file=*%s;UseEnv=%v;set=%s;template=%s", idx, e.ext, useEnv, st.name, tmpl)
+				c05cCurrent(m, idx>>9, d)
+				ref := c05cLoad(e.yaml, shape, []byte(content))
+				out := c05cLoadFile(shape, file, false, opts...)
+				m.Case(d, true)
+				m.Count(fmt.Sprintf("load.useenv=%v", useEnv), 1)
+				bad := cr.same(ref, out, d, fmt.Sprintf("C05:conf-load-useenv=%v", useEnv), "set "+st.name+": Load vs LoadFrom*Bytes of the "+map[bool]string{true: "expanded", false: "raw"}[useEnv]+" text")
+				if !bad && useEnv {
+					wantOK := st.name == "normal" || st.name == "extremes" || st.name == "low-extremes"
+					switch {
+					case wantOK && out.err != nil:
+						m.Violate("C05:conf-load-useenv:valid-rejected", d, "set %s: %v", st.name, out.err)
+					case !wantOK && out.err == nil:
+						m.Violate("C05:conf-load-useenv:fault-accepted", d, "set %s accepted: %s", st.name, g.Show(out.res))
+					case wantOK:
+						doc := map[string]any{"name": st.env["NAME"], "port": json.Number(st.env["PORT"]), "ratio": json.Number(st.env["RATIO"]),
+							"tags": []any{"a", st.env["TAG"], st.env["TAG"] + "-x"}, "db": map[string]any{"url": "pg://" + st.env["HOST"] + ":" + st.env["PORT"] + "/x", "pool_size": json.Number(st.env["POOL"])},
+							"flag": st.env["FLAG"] == "true", "wait": st.env["WAIT"]}
+						if fd := g.Audit(shape, out.res, doc, g.AuditOpt{Canon: c05cCanon}); fd != nil {
+							m.Violate("C05:conf-load-useenv:inexact", d, "set %s: %s\nresult: %s", st.name, fd.Detail, g.Show(out.res))
+						}
+					}
+				}
+				os.Remove(file)
+			}
+		}
+	}
+	// error arms
+	good := []byte(`{"name":"n","port":1,"tags":["t"],"db":{"url":"u"}}`)
+	goodFile := write("c05-good.json", good)
+	os.Mkdir(dir+"/c05-dir.json", 0o755)
+	for _, tc := range []struct {
+		file    string
+		content []byte
+		wantErr bool
+	}{
+		{goodFile, nil, false}, {dir + "/c05-missing.json", nil, true}, {dir + "/c05-dir.json", nil, true},
+		{write("c05-x.toml", good), nil, true}, {write("c05-x.txt", good), nil, true}, {write("c05-noext", good), nil, true}, {write("c05-x.json.bak", good), nil, true},
+		{write("c05-empty.json", nil), nil, true}, {write("c05-empty.yaml", nil), nil, true}, {write("c05-yaml-in.json", []byte("name: n\n")), nil, true},
+		{write("c05-bad.yaml", []byte("name: [")), nil, true}, {write("c05-bad.yml", []byte("a: *nope\n")), nil, true}, {write("c05-list.yaml", []byte("- 1\n")), nil, true},
+		{write("c05-json-in.yaml", good), nil, false}, {write("c05.v2.yml", []byte("name: \"n\"\nport: 1\ntags: [\"t\"]\ndb: {url: \"u\"}\n")), nil, false},
+	} {
+		idx++
+		if !m.Only(idx) {
+			continue
+		}
+		d := fmt.Sprintf("case=%d;api=conf.Load;file=%s", idx, tc.file[strings.LastIndex(tc.file, "/")+1:])
+		out := c05cLoadFile(shape, tc.file, false)
+		m.Case(d, true)
+		m.Count("load.error-arm-probes", 1)
+		switch {
+		case out.pv != nil:
+			m.Violate(c05cPanicSig(out), d, "panic: %v", out.pv)
+		case tc.wantErr && out.err == nil:
+			m.Violate("C05:conf-load-file:accepted", d, "Load succeeded: %s", g.Show(out.res))
+		case !tc.wantErr && out.err != nil:
+			m.Violate("C05:conf-load-file:rejected", d, "Load failed: %v", out.err)
+		}
+	}
+	m.Sample(map[string]any{"random_files": n, "deterministic_probes": idx - base, "json_template": jsonT})
 }
